@@ -880,6 +880,18 @@ def verify_spec(spec):
         p0.pc.extend(hints(ctx))
     if hasattr(world, "init_path"):
         world.init_path(p0, spec, ctx)
+    # input probes (vacuity / solver-soundness guard): under the precondition, the axioms and the definitional hints alone, both
+    # "this sequence argument is empty" and "... is non-empty" must remain satisfiable (an `unsat` here is a checker fault)
+    try:
+        from z3 import Length as _Len, is_seq as _is_seq
+        for n_, v_ in args.items():
+            t_ = getattr(v_, "t", None)
+            if t_ is not None and hasattr(t_, "sort") and _is_seq(t_) and n_ not in getattr(spec, "nonempty_args", ()):
+                for nm_, f_ in (("empty", _Len(t_) == 0), ("non-empty", _Len(t_) > 0)):
+                    ex.obl.append(Obligation("%s/PROBE:%s-%s" % (fi.ident, n_, nm_), "PROBE", list(p0.pc) + [f_], BoolVal(False), spec.props,
+                                             "guard: must NOT be provable"))
+    except Exception:
+        pass
     try:
         exits = ex.run(p0)
     except (Unsupported, frontend.StructError) as e:
